@@ -446,6 +446,9 @@ func AllowReturnShadowing[T any](fn any) Provider {
 // Calls to the invokeFunc do not leak memory except where there are new inputs to
 // providers marked Memoize().
 func (c *Collection) Bind(invokeFunc any, initFunc any) error {
+	if invokeFunc == nil {
+		return fmt.Errorf("Bind must be passed a pointer to a function for invoke, not nil")
+	}
 	if err := c.bindFast(invokeFunc, initFunc); err != nil {
 		invokeF := newProvider(invokeFunc, -1, c.name+" invoke func")
 		var initF *provider
@@ -490,6 +493,9 @@ func (c *Collection) bindFast(invokeFunc any, initFunc any) error {
 // chain.  Whatever values the invoke function returns must be produced by the
 // injection chain.
 func (c *Collection) SetCallback(setCallbackFunc any) error {
+	if setCallbackFunc == nil {
+		return fmt.Errorf("SetCallback must be passed a function")
+	}
 	setter := reflect.ValueOf(setCallbackFunc)
 	setterType := setter.Type()
 	if setterType.Kind() != reflect.Func {
